@@ -145,6 +145,15 @@ CHECKS = {
                  "every argument (shape, dtype, names, keys, bytes) around ~95 catalogue entries on generated, pre-aligned, "
                  "same-object and raising calls.",
          "note": BASE_NOTE + " The AST classification is conservative and trusted; the byte-level fact is monitored, not proved about Python."},
+ "C12": {"ref": "5/C12", "technique": "Lean 4 decide over the dtype switch regenerated from cvalues.pyx and the guard regenerated from from_attributes.py + buffer-loop invariant + exhaustive dtype-pair correspondence with poisoned buffers",
+         "text": "fromAttributes_table (decide over all 14 source dtypes x 15 requests): the constructor stores numpy's cast in "
+                 "a field of the requested dtype, never unwritten or reinterpreted bytes; guard_sound: CFUNCTION_DTYPES is "
+                 "inside both compiled switches; multiply_table for all 196 dtype pairs; old_path_uninit/_garbage document "
+                 "why the guard exists; product_fully_written (the cmultiply set-or-accumulate loop leaves no cell unwritten, "
+                 "for every number of terms). The run covers all dtypes x requests x 7 constructors, all ordered pairs x "
+                 "{+,-,*} incl. broadcasting, **, shape functions, and zero-survivor results, with every fresh ndpoly buffer "
+                 "pre-filled with a poison byte.",
+         "note": BASE_NOTE + " The .pyx switch is read from the source text (no Cython here: the running .so may be older than an edited .pyx). Known finding D16 (size-0 arrays) is pinned by test_scalars."},
 }
 CLAIMED = set(CHECKS)
 NOT_APPLICABLE = {f"C{i:02d}": "check under construction in this session (will be claimed once built)"
